@@ -140,7 +140,8 @@ def write_baseline(reg, repo, args):
     out = {"source_hashes": repo.source_hashes(), "functions": {}, "obligations": {}}
     bad = 0
     for r in recs:
-        out["functions"][r["function"]] = {"ast_hash": r.get("ast_hash"), "status": r["status"], "n": len(r["obligations"])}
+        out["functions"][r["function"]] = {"ast_hash": r.get("ast_hash"), "status": r["status"], "n": len(r["obligations"]),
+                                           "deps_hash": r.get("deps_hash")}
         if r["status"] != "ok":
             print("UNDECIDED", r["function"], r.get("error"))
             bad += 1
@@ -222,8 +223,10 @@ def check_property(reg, repo, args, t0):
             if o["verdict"] == "refuted":
                 violations.append((r, o, True))
             else:
-                base_v = baseline.get("obligations", {}).get(o["name"])
-                if changed and base_v in ("discharged", None):
+                base_f = baseline.get("functions", {}).get(r["function"], {})
+                code_changed = base_f.get("deps_hash") != r.get("deps_hash")
+                if code_changed:
+                    # discharged for the baseline source of this function (and its inlined callees), not any more
                     violations.append((r, o, False))
                 else:
                     undecided.append((o["name"], "solver: %s" % o.get("reason", "unknown")))
